@@ -1,13 +1,17 @@
 (* C16 — Validation always returns a verdict and the verdict matches the error output.
-   This file contains only the property theorems; the model is Check/CheckModel.v (mirror
-   of pfdl_tree_visitor.py + semantic_error_checker.py + parse_string), the proofs are in
+   This file contains only the property theorems; the model is Check/CheckModel.v (mirror of
+   pfdl_tree_visitor.py + semantic_error_checker.py + parse_string), the proofs are in
    Check/CheckProofsC16.v, Check/CheckProofsNoExn.v and Check/CheckRefuted.v.
 
-   The theorems quantify over all ASTs (all syntactically valid programs).  Arbitrary
-   strings (lexer/parser robustness) are exercised by the fuzz slice of the check only and
-   are NOT covered by a theorem: C16 is partial in that respect. *)
+   The theorems quantify over ASTs (syntactically valid programs).  Arbitrary strings (lexer,
+   parser, json.loads) are exercised by the fuzz slice of the check only and are NOT covered
+   by a theorem: C16 is partial in that respect.
+
+   History: the unguarded lookups of the validator (ten crash sites, findings D11a, D11c,
+   D11d) were repaired in /repo; the former `C16_refuted_<site>` witnesses are now reports
+   (C16_former_crash_sites_report) and the guard crash_free is gone. *)
 From PFDL Require Import Base Syntax.
-From PFDL.Check Require Import CheckModel CheckProofsC16 CheckProofsNoExn CheckRefuted Typing Guards Witnesses.
+From PFDL.Check Require Import CheckModel CheckProofsC16 CheckProofsNoExn CheckProofsC09 CheckRefuted Typing Guards Witnesses.
 
 (* The verdict of parse_string is "valid" exactly when no message was printed. *)
 Theorem C16_verdict_iff_no_message : forall p es,
@@ -28,73 +32,47 @@ Theorem C16_terminates : forall p, validate p <> Fuel.
 Proof. exact validate_never_out_of_fuel. Qed.
 Print Assumptions C16_terminates.
 
-(* Full statement: a verdict for every program.  It is false of the faithful model … *)
-Theorem C16_always_a_verdict_refuted : ~ C16_always_a_verdict.
-Proof. exact not_always_a_verdict. Qed.
-Print Assumptions C16_always_a_verdict_refuted.
+(* A verdict for every program: for every AST of the shape the grammar produces (attribute
+   paths start with ".field" and put an index only after a field, struct literals are JSON
+   objects — from_grammar, Guards.v) validation returns a list of messages; no exception
+   escapes.  The lookups that are still unguarded in check_if_input_parameter_matches are
+   reached only after check_attribute_access succeeded, which makes every key present. *)
+Theorem C16_always_a_verdict : forall p,
+  from_grammar p = true -> exists es, validate p = Ok es.
+Proof. exact from_grammar_verdict. Qed.
+Print Assumptions C16_always_a_verdict.
 
-(* … one witness per unguarded lookup (DESIGN §8 D11; known findings D11a, D11c, D11d): *)
-Theorem C16_refuted_undeclared_operand : validate w_D11a_undeclared_operand = Exn KeyError.
-Proof. exact crash_undeclared_operand. Qed.
-Print Assumptions C16_refuted_undeclared_operand.
-Theorem C16_refuted_unknown_attribute_operand : validate w_unknown_attribute_operand = Exn KeyError.
-Proof. exact crash_unknown_attribute_operand. Qed.
-Print Assumptions C16_refuted_unknown_attribute_operand.
-Theorem C16_refuted_not_operand : validate w_D11a_not_operand = Exn KeyError.
-Proof. exact crash_not_operand. Qed.
-Print Assumptions C16_refuted_not_operand.
-Theorem C16_refuted_array_element_in_guard : validate w_D11a_array_element_in_guard = Exn TypeError.
-Proof. exact crash_array_element_in_guard. Qed.
-Print Assumptions C16_refuted_array_element_in_guard.
-Theorem C16_refuted_array_element_as_condition : validate w_array_element_as_condition = Exn TypeError.
-Proof. exact crash_array_element_as_condition. Qed.
-Print Assumptions C16_refuted_array_element_as_condition.
-Theorem C16_refuted_index_on_struct_attribute : validate w_D11c_index_on_struct_attribute = Exn AttributeError.
-Proof. exact crash_index_on_struct_attribute. Qed.
-Print Assumptions C16_refuted_index_on_struct_attribute.
-Theorem C16_refuted_field_after_array : validate w_field_after_array = Exn TypeError.
-Proof. exact crash_field_after_array. Qed.
-Print Assumptions C16_refuted_field_after_array.
-Theorem C16_refuted_array_variable_path : validate w_array_variable_path = Exn TypeError.
-Proof. exact crash_array_variable_path. Qed.
-Print Assumptions C16_refuted_array_variable_path.
-Theorem C16_refuted_primitive_array_element : validate w_D11c_primitive_array_element = Exn KeyError.
-Proof. exact crash_primitive_array_element. Qed.
-Print Assumptions C16_refuted_primitive_array_element.
-Theorem C16_refuted_nested_literal_key : validate w_D11d_unknown_key_in_nested_literal = Exn KeyError.
-Proof. exact crash_nested_literal_key. Qed.
-Print Assumptions C16_refuted_nested_literal_key.
+Theorem C16_no_exception : forall p,
+  from_grammar p = true -> forall k, validate p <> Exn k.
+Proof. exact from_grammar_no_exception. Qed.
+Print Assumptions C16_no_exception.
 
-(* … and true under the executable guard crash_free (Guards.v), which excludes exactly those
-   shapes: operands of comparison/arithmetic operators are '!'-free and their paths are chains
-   of plain struct attributes; attribute paths put an index only after an array of structs and
-   a field only after a struct; nested literal objects only use keys of their definition. *)
-Theorem C16_always_a_verdict_partial : forall p,
-  crash_free p = true -> exists es, validate p = Ok es.
-Proof. exact crash_free_verdict. Qed.
-Print Assumptions C16_always_a_verdict_partial.
+(* the hypothesis is about the AST, not about the program text: the parser guarantees it; it
+   cannot be dropped (an index directly after the variable, which no text produces) and it is
+   inhabited by a non-trivial program *)
+Theorem C16_ast_shape_needed :
+  from_grammar w_nongrammar_path = false /\ validate w_nongrammar_path = Exn KeyError.
+Proof. exact nongrammar_ast_raises. Qed.
+Print Assumptions C16_ast_shape_needed.
 
-Theorem C16_no_exception_partial : forall p,
-  crash_free p = true -> forall k, validate p <> Exn k.
-Proof. exact crash_free_no_exception. Qed.
-Print Assumptions C16_no_exception_partial.
-
-(* the guard is inhabited by a non-trivial program (all statement kinds, nested struct
-   literal, indexed parameters, And / ! / + / <), and every crash witness lies outside it *)
 Theorem C16_guard_inhabited :
-  wf_dec w_good_small = true /\ crash_free w_good_small = true /\ validate w_good_small = Ok []
-  /\ has_recursion w_good_small = false /\ sh_parloop_call w_good_small = false
-  /\ has_bad_limit w_good_small = false /\ sh_bad_literal w_good_small = false
-  /\ sh_bad_guard w_good_small = false /\ sh_string_eq w_good_small = false.
+  wf_dec w_good_small = true /\ from_grammar w_good_small = true /\ validate w_good_small = Ok []
+  /\ c11_guard w_good_small = true /\ sh_bad_guard w_good_small = false
+  /\ sh_string_eq w_good_small = false /\ sh_array_element w_good_small = false
+  /\ sched_safe w_good_small = true /\ guards_typed w_good_small = true.
 Proof. exact good_small_in_all_guards. Qed.
 Print Assumptions C16_guard_inhabited.
 
-Theorem C16_guard_excludes_the_witnesses :
-  crash_free w_D11a_undeclared_operand = false /\ crash_free w_unknown_attribute_operand = false
-  /\ crash_free w_D11a_not_operand = false /\ crash_free w_D11a_array_element_in_guard = false
-  /\ crash_free w_array_element_as_condition = false /\ crash_free w_D11c_index_on_struct_attribute = false
-  /\ crash_free w_field_after_array = false /\ crash_free w_array_variable_path = false
-  /\ crash_free w_D11c_primitive_array_element = false
-  /\ crash_free w_D11d_unknown_key_in_nested_literal = false.
-Proof. exact crash_witnesses_outside_guard. Qed.
-Print Assumptions C16_guard_excludes_the_witnesses.
+(* the former crash sites: undeclared / unknown-attribute / '!' operand, index on a struct
+   attribute, field after an array, path from an array variable, unknown key in a nested
+   literal — each now yields exactly one message at the offending statement *)
+Theorem C16_former_crash_sites_report :
+  validate w_D11a_undeclared_operand = Ok [(KCmpTypes, CStmt 0 [1])]
+  /\ validate w_unknown_attribute_operand = Ok [(KCmpTypes, CStmt 0 [1])]
+  /\ validate w_D11a_not_operand = Ok [(KCmpTypes, CStmt 0 [1])]
+  /\ validate w_D11c_index_on_struct_attribute = Ok [(KIndexMismatch, CStmtIn 0 [1])]
+  /\ validate w_field_after_array = Ok [(KIndexMismatch, CStmtIn 0 [1])]
+  /\ validate w_array_variable_path = Ok [(KUnknownVariable, CStmtIn 0 [1])]
+  /\ validate w_D11d_unknown_key_in_nested_literal = Ok [(KUnknownAttrInLit, CLitJson 0 [0] 0)].
+Proof. exact former_crash_sites_report. Qed.
+Print Assumptions C16_former_crash_sites_report.
